@@ -255,7 +255,7 @@ func Variants(ds []gen.Decl) (out []variant, skipped int) {
 		for _, w := range []struct{ kind, text string }{
 			{"self-unify", pe + " & " + pe}, {"unify-top", pe + " & _"}, {"top-unify", "_ & " + pe}, {"embed-wrap", "{" + e + "}"},
 		} {
-			if false && w.kind == "embed-wrap" && crashRisk(ds) { // crash fixed by 39e9a14; kept for reference
+			if false && w.kind == "embed-wrap" && crashRisk(ds) { // crash fixed by acb3d02; kept for reference
 				// C02 known finding (stack overflow: bound embedded in a struct
 				// literal + selector into it): crashes the process, so it cannot
 				// be compared here. Counted as unclaimed.
@@ -286,6 +286,9 @@ func Variants(ds []gen.Decl) (out []variant, skipped int) {
 	}
 	// 5. duplicate each declaration
 	for i := range ds {
+		if strings.HasPrefix(ds[i].Raw, "let ") {
+			continue // a second `let L` is a redeclaration, not a duplicate conjunct
+		}
 		x := append(cloneDecls(ds), ds[i])
 		emit("duplicate", x)
 	}
